@@ -19,8 +19,8 @@ import (
 // evaluated at every checkpoint.
 
 func init() {
-	register(&simcore.Check{ID: "C02", Bubble: true, Body: func(r *simcore.Run) { storeWorkloadBody(r, "C02") }})
-	register(&simcore.Check{ID: "C04", Bubble: true, Body: func(r *simcore.Run) { storeWorkloadBody(r, "C04") }})
+	register(&simcore.Check{ID: "C02", Bubble: true, Liveness: true, Body: func(r *simcore.Run) { storeWorkloadBody(r, "C02") }})
+	register(&simcore.Check{ID: "C04", Bubble: true, Liveness: true, Body: func(r *simcore.Run) { storeWorkloadBody(r, "C04") }})
 }
 
 type swOpts struct {
@@ -43,7 +43,15 @@ func storeWorkloadBody(r *simcore.Run, prop string) {
 	r.Disk.Attach(dir)
 	e := newStoreEnv(r, cfg, dir)
 	if prop == "C04" && r.Pct(40) {
+		// grow multi-level index trees, flush them while small and compact them
 		e.wideKeys = r.Pick(30, 60, 120)
+		e.cfg.IdxNodeSize = 512
+		e.cfg.IdxFlushThld = r.Pick(1, 4, 16)
+		if e.cfg.IdxSyncThld < e.cfg.IdxFlushThld {
+			e.cfg.IdxSyncThld = e.cfg.IdxFlushThld
+		}
+		e.cfg.IdxCompactThld = 1
+		e.compactBias = true
 		r.Sig("wide", e.wideKeys)
 	}
 	if err := e.open(); err != nil {
@@ -233,7 +241,11 @@ func (e *storeEnv) maintenance(count int) {
 	r := e.r
 	for i := 0; i < count; i++ {
 		r.Yield("maint-op")
-		switch r.Intn(6) {
+		op := r.Intn(6)
+		if e.compactBias && r.Pct(30) {
+			op = 1
+		}
+		switch op {
 		case 0:
 			err := e.st.FlushIndexes(float32(r.Pick(0, 0, 50, 100)), r.Bool())
 			r.Logf("maint: flush indexes: %v", err)
